@@ -461,7 +461,16 @@ IfCond ==
                              /\ q.out.e.cls = "KeyError" /\ q.out.e.msg = c.n
                 isexc == q.out.tag = "exc" /\ ~undefined
                 truth == IF undefined THEN FALSE ELSE IF isexc THEN FALSE ELSE Truth(q.out.v)
-                ns1 == IF c.k = "name" /\ q.out.tag = "val" THEN SetCache(c.n, q.out.v) ELSE ns
+                ns0 == IF c.k = "name" /\ q.out.tag = "val" THEN SetCache(c.n, q.out.v) ELSE ns
+                \* a method of a client object that, when it runs, gives its object a new attribute (the "load on first use"
+                \* idiom): from then on the name is defined for every later search of that object, in this rendering too
+                fi == IF c.k = "name" THEN Find(c.n) ELSE 0
+                setter == fi > 0 /\ q.out.tag = "val" /\ ValIn(ns[fi], c.n).k = "fn" /\ "sets" \in DOMAIN ValIn(ns[fi], c.n)
+                ns1 == IF setter
+                       THEN LET sv == ValIn(ns[fi], c.n).sets
+                                f == ns0[fi] IN
+                            [ns0 EXCEPT ![fi] = [f EXCEPT !.b = [x \in DOMAIN f.b \cup {sv.n} |-> IF x = sv.n THEN sv.v ELSE f.b[x]]]]
+                       ELSE ns0
             IN /\ calls' = q.calls /\ ninv' = q.ninv
                /\ IF isexc
                   THEN exc' = q.out.e /\ UNCHANGED <<ctl, ns, evs, ret>>
@@ -471,10 +480,20 @@ IfCond ==
                                THEN /\ ns' = ns1 /\ UNCHANGED <<evs, ret>>
                                     /\ ctl' = Append(SetTop(ctl, [Top EXCEPT !.st = "body"]),
                                                      RbAt(nd.cs[Top.i].b, Len(ns)))
-                               ELSE Complete(<<>>)
+                               ELSE IF setter
+                                    THEN \* (the object has changed before the conditional is left: two steps, so that leaving
+                                         \* the conditional is still seen to restore the namespace it found)
+                                         /\ ns' = ns1 /\ UNCHANGED <<evs, ret>>
+                                         /\ ctl' = SetTop(ctl, [Top EXCEPT !.st = "fin"])
+                                    ELSE Complete(<<>>)
                           ELSE /\ ns' = ns1 /\ UNCHANGED <<evs, ret>>
                                /\ ctl' = SetTop(ctl, [Top EXCEPT !.i = Top.i + 1])
     /\ UNCHANGED <<tid, plan, level, result>>
+
+IfFin ==
+    /\ Running /\ Top.k = "if" /\ Top.st = "fin"
+    /\ Complete(<<>>)
+    /\ UNCHANGED <<tid, plan, level, calls, ninv, exc, result>>
 
 \* owner frames whose only duty on return is "pop my frames, append the text"
 SimpleRet ==
@@ -740,7 +759,7 @@ RaiseExc ==
 
 Next ==
     \/ CallRet \/ CallExc \/ RbDone \/ RbUnwind \/ RbText \/ RbComment \/ RbVar \/ RbVarX \/ RbProbe \/ RbReturn
-    \/ RbIf \/ IfCond \/ SimpleRet \/ SimpleExc \/ RbLet \/ LetBind \/ RbWith \/ RbIn \/ InItem \/ InRet
+    \/ RbIf \/ IfCond \/ IfFin \/ SimpleRet \/ SimpleExc \/ RbLet \/ LetBind \/ RbWith \/ RbIn \/ InItem \/ InRet
     \/ RbTry \/ TryRet \/ TryExc \/ RbTryF \/ TryFRet \/ TryFExc \/ RbRaise \/ RaiseRet \/ RaiseExc
 
 Spec == Init /\ [][Next]_vars
